@@ -523,6 +523,9 @@ def _repo_designs(tier):
     ds.append(("TestHarness(ProcRTL,ChecksumXcelRTL)", lambda: TestHarness(ProcRTL, ChecksumXcelRTL)))
     ds.append(("TestHarness(ProcCL,ChecksumXcelCL)", lambda: TestHarness(ProcCL, ChecksumXcelCL)))
     ds.append(("TestHarness(ProcFL,ChecksumXcelFL)", lambda: TestHarness(ProcFL, ChecksumXcelFL)))
+    # hierarchies into which the library's connect hooks insert adapter components (harness/c14_hooks.py)
+    import c14_hooks
+    ds += list(c14_hooks.DESIGNS)
     return ds
 
 
